@@ -125,7 +125,14 @@ def section_typing(serif, out):
         for tcode in samples:
             v = Vector(vals)
             try:
-                v._promote(inv[tcode])
+                if hasattr(v, "_promote"):
+                    v._promote(inv[tcode])
+                else:
+                    # renamed: read the unambiguous rows off a write of a value of the target kind (a write of a NARROWER kind is
+                    # accepted without promotion and says nothing about `_promote`: skipped)
+                    v[0] = samples[tcode][0]
+                    if tcode != ccode and kc.get(v.schema().kind) != tcode:
+                        continue
                 res = kc.get(v.schema().kind)
                 prow.append(f"({ccode}, {tcode}, some {res})")
             except SerifTypeError:
@@ -438,8 +445,28 @@ def section_display(serif, out):
 def section_names(serif, out):
     """reserved accessor names: naming._get_reserved_names() evaluated on the live classes (C17)"""
     try:
-        from serif.naming import _get_reserved_names
-        names = sorted(_get_reserved_names())
+        try:
+            from serif.naming import _get_reserved_names
+            names = sorted(_get_reserved_names())
+        except ImportError:
+            # renamed / moved / cached elsewhere: a name is reserved iff a column stored under it is advertised under another
+            # accessor (the trailing underscore); candidates are every public attribute of the three classes and the keywords
+            import keyword, warnings as _w
+            from serif import Vector, Table
+            cands = set(keyword.kwlist)
+            t0 = Table({"a": [1]})
+            for obj in (Vector, Table, type(next(iter(t0)))):
+                cands |= {n.lower() for n in dir(obj) if not n.startswith("_")}
+            names = []
+            with _w.catch_warnings():
+                _w.simplefilter("ignore")
+                for n in sorted(cands):
+                    t = Table([Vector([1], name=n)])
+                    acc = [a for a in dir(t) if getattr(type(t), a, None) is None and a.rstrip("_") == n.rstrip("_")]
+                    if n + "_" in acc and n not in acc:
+                        names.append(n)
+            # keywords that are not lower-case (False, None, True) can never be a sanitised name: unobservable either way, kept
+            names = sorted(set(names) | {k for k in keyword.kwlist if k != k.lower()})
         if not all(isinstance(n, str) for n in names):
             raise TypeError("reserved names are not strings")
     except Exception:
@@ -631,7 +658,15 @@ def section_index(serif, out):
     the result r is r+1, a raise (or a non-int / negative result) is 0."""
     rows = []
     try:
-        from serif.typeutils import slice_length
+        try:
+            from serif.typeutils import slice_length
+        except ImportError:
+            # renamed / moved: the number of elements a slice selects, read off the behaviour of vector slicing
+            from serif import Vector
+
+            def slice_length(sl, n):
+                r = Vector(list(range(n)))[sl] if n else Vector([0])[1:][sl]
+                return len(r)
         mem = [None, -3, -1, 0, 1, 2, 4]
 
         def enc(x):
@@ -658,7 +693,19 @@ def section_resolve_binary_name(serif, out):
     """`table._resolve_binary_name` executed on {None, 'a', 'b'}^2 (C18)"""
     rows = []
     try:
-        from serif.table import _resolve_binary_name
+        try:
+            from serif.table import _resolve_binary_name
+        except ImportError:
+            # renamed / moved / another result convention: read the rule off the behaviour — the name of the single result column
+            # of table-with-table arithmetic for every pair of stored names
+            import warnings
+            from serif import Table, Vector
+
+            def _resolve_binary_name(l, r):
+                with warnings.catch_warnings():
+                    warnings.simplefilter("ignore")
+                    t = Table([Vector([1], name=l)]) + Table([Vector([1], name=r)])
+                    return t.cols()[0].name
         dom = [None, "a", "b"]
         opt = lambda x: "none" if x is None else "some " + lean_str(x)
         for l in dom:
